@@ -677,6 +677,42 @@ func c06DML(c *core.Ctx, sc *c06Schema, rows c06Content, leaves []Pred, dmlVals 
 				}
 				v = &c06Verdict{"wrong-effect/" + st.Kind + "/" + shape, fmt.Sprintf("%s\n  table afterwards: %s\n  model           : %s", sql, got.Rows.Short(), want.Short())}
 			}
+			// the effect must be visible through the index path as well (every stored value of every column
+			// as point key): a statement that updates the table but leaves an index entry behind, or pointing
+			// at the old place of a relocated row, answers later index lookups wrongly
+			if v == nil {
+				seenKey := map[string]bool{}
+				for ci, cd := range cols {
+					for _, r := range want {
+						k := r[ci]
+						if seenKey[cd.Name+"|"+fmt.Sprint(k)] {
+							continue
+						}
+						seenKey[cd.Name+"|"+fmt.Sprint(k)] = true
+						if lf, isF := k.(float32); isF && lf != lf {
+							continue
+						}
+						q := &Stmt{Kind: "select", Table: "t", Cols: []string{"*"}, Where: Leaf{cd.Name, "=", k}}
+						if ok, alt := litAccepted(cd.Name, k); !ok || alt != "" {
+							continue // a literal form the front end does not take (declared limitation), not this clause
+						}
+						wq := env.model.Apply(0, q).Rows
+						gq := env.db.Auto(q.SQL())
+						res.Traces++
+						if gq.Fail != nil || gq.Aborted || gq.Err != "" {
+							v = &c06Verdict{"index-read-back-failed/" + st.Kind, fmt.Sprintf("%s; then %s -> fail=%v aborted=%v err=%q", sql, shortSQL(q.SQL()), gq.Fail, gq.Aborted, gq.Err)}
+						} else if gq.Rows.Canon() != wq.Canon() {
+							v = &c06Verdict{"wrong-effect-through-index/" + st.Kind, fmt.Sprintf("%s; then %s\n  returns: %s\n  model  : %s", sql, shortSQL(q.SQL()), gq.Rows.Short(), wq.Short())}
+						}
+						if v != nil {
+							break
+						}
+					}
+					if v != nil {
+						break
+					}
+				}
+			}
 		}
 		if v != nil {
 			viol(sc, rows, v, sql)
